@@ -143,12 +143,19 @@ func runC08(c *Ctx, r *Rng, sc c08Scenario, idx int) {
 	var reply *radius.Packet
 	var xerr error
 	done := make(chan struct{})
+	var panicked interface{}
 	go func() {
+		defer close(done)
+		defer func() { panicked = recover() }()
 		reply, xerr = cl.Exchange(ctx, req, addr)
-		close(done)
 	}()
 	select {
 	case <-done:
+		if panicked != nil {
+			c.Fail("spec", "Exchange", sc.name, fmt.Sprintf("%s retry=%v max=%d cancel=%s", sc.peer, sc.retry, sc.max, sc.cancel), fmt.Sprint("panic: ", panicked), "returns a packet or an error", "Exchange never panics")
+			close(stopPeer)
+			return
+		}
 	case <-time.After(8 * time.Second):
 		c.Fail("spec", "Exchange", sc.name, fmt.Sprintf("%s retry=%v max=%d cancel=%s", sc.peer, sc.retry, sc.max, sc.cancel), "did not return within 8 s", "returns", "Exchange always returns: promptly after the context ends")
 		close(stopPeer)
